@@ -167,4 +167,170 @@ RecDev(r, s) ==
           /\ r.t \notin KnownTypes /\ s.t \notin KnownTypes /\ r.val = s.val
   THEN [D_unknown_eq_ignores_rtype |-> [RecExp(r, s) EXCEPT !.eq = TRUE, !.cmp0 = TRUE, !.hash_ok = FALSE]]
   ELSE <<>>
+--------------------------------------------------------------------------
+(* Carriers: the ways the library holds ONE name (C04: "independent of      *)
+(* representation").  A carrier is a term (a tagged tuple); what it denotes *)
+(* is a label sequence.                                                     *)
+(*   relative (ToRelativeName):                                             *)
+(*     <<"rflat", o, labels>>              RelativeName over octets kind o  *)
+(*     <<"rchain", rel, rel>>              Chain<Rel, Rel>                  *)
+(*   absolute (ToName):                                                     *)
+(*     <<"flat", o, name>>                 Name over octets kind o          *)
+(*     <<"parsed", cuts, hops, name>>      ParsedName inside a message:     *)
+(*                                         cuts[k] = after the first k      *)
+(*                                         labels a compression pointer     *)
+(*                                         follows; hops pointer-only hops  *)
+(*                                         lead to the first label          *)
+(*     <<"chain", rel, abs>>               Chain<Rel, Abs>                  *)
+(*     <<"uchain", o, isabs, labels, abs>> Chain<UncertainName, Abs>: the   *)
+(*                                         right part counts only if the    *)
+(*                                         uncertain name is relative       *)
+(*     <<"chainroot", rel>>                rel.chain_root()                 *)
+(*     <<"ref", abs>>                      &T                               *)
+(* The operators CWire / CLen are written the way the implementation works  *)
+(* (a chain handles its left part, then its right part; a flat name is one  *)
+(* slice).  The law CarrierLaw says they are functions of the denoted name  *)
+(* alone: Carrier(c) ~ Denote(c).  Everything the executor and the recorder *)
+(* are told to expect of a carrier is computed from Denote(c) only          *)
+(* (NameObs, NamePairExp, CanonRd, RecCanonWire).                           *)
+
+RECURSIVE RelLabels(_)
+RelLabels(c) == IF c[1] = "rflat" THEN c[3] ELSE RelLabels(c[2]) \o RelLabels(c[3])
+RECURSIVE Denote(_)
+Denote(c) ==
+  CASE c[1] = "flat"      -> c[3]
+    [] c[1] = "parsed"    -> c[4]
+    [] c[1] = "chain"     -> RelLabels(c[2]) \o Denote(c[3])
+    [] c[1] = "uchain"    -> IF c[3] THEN c[4] ELSE c[4] \o Denote(c[5])
+    [] c[1] = "chainroot" -> RelLabels(c[2])
+    [] c[1] = "ref"       -> Denote(c[2])
+
+FlatKinds == {"vec", "bytes", "array", "slice"}
+RECURSIVE WfRel(_)
+WfRel(c) ==
+  /\ c[1] \in {"rflat", "rchain"}
+  /\ IF c[1] = "rflat" THEN Len(c) = 3 /\ c[2] \in FlatKinds /\ ValidRel(c[3])
+     ELSE Len(c) = 3 /\ WfRel(c[2]) /\ WfRel(c[3])
+RECURSIVE WfAbsParts(_)
+WfAbsParts(c) ==
+  CASE c[1] = "flat"      -> Len(c) = 3 /\ c[2] \in FlatKinds
+    [] c[1] = "parsed"    -> Len(c) = 4 /\ Len(c[2]) = Len(c[4]) /\ c[3] \in 0..8
+                             /\ \A i \in 1..Len(c[2]) : c[2][i] \in BOOLEAN
+    [] c[1] = "chain"     -> Len(c) = 3 /\ WfRel(c[2]) /\ WfAbsParts(c[3])
+    [] c[1] = "uchain"    -> Len(c) = 5 /\ c[2] \in {"vec", "bytes"} /\ c[3] \in BOOLEAN
+                             /\ WfAbsParts(c[5]) /\ ValidAbs(Denote(c[5]))
+                             /\ (IF c[3] THEN ValidAbs(c[4]) ELSE ValidRel(c[4]))
+    [] c[1] = "chainroot" -> Len(c) = 2 /\ WfRel(c[2])
+    [] c[1] = "ref"       -> Len(c) = 2 /\ WfAbsParts(c[2])
+    [] OTHER -> FALSE
+WfAbs(c) == WfAbsParts(c) /\ ValidAbs(Denote(c))
+
+\* compose (canon = FALSE) and compose_canonical (canon = TRUE), part by
+\* part.  mut: model mutants (a vacuity guard for CarrierLaw, MC_Order_mut.cfg)
+RECURSIVE RelWire(_, _)
+RelWire(c, canon) ==
+  IF c[1] = "rflat" THEN ToWireRel(IF canon THEN LowerName(c[3]) ELSE c[3])
+  ELSE RelWire(c[2], canon) \o RelWire(c[3], canon)
+RECURSIVE CWire(_, _, _)
+CWire(c, canon, mut) ==
+  LET nm(n) == IF canon THEN LowerName(n) ELSE n IN
+  CASE c[1] = "flat"      -> ToWireAbs(nm(c[3]))
+    [] c[1] = "parsed"    -> ToWireAbs(nm(c[4]))
+    [] c[1] = "chain"     -> RelWire(c[2], canon)
+                               \o CWire(c[3], canon /\ "M_chain_canon_right_raw" \notin mut, mut)
+    [] c[1] = "uchain"    -> IF c[3] THEN ToWireAbs(nm(c[4]))
+                             ELSE ToWireRel(nm(c[4]))
+                                    \o CWire(c[5], canon, mut)
+    [] c[1] = "chainroot" -> RelWire(c[2], canon) \o <<0>>
+    [] c[1] = "ref"       -> CWire(c[2], canon, mut)
+RECURSIVE RelLen(_)
+RelLen(c) == IF c[1] = "rflat" THEN WireLenRel(c[3]) ELSE RelLen(c[2]) + RelLen(c[3])
+RECURSIVE CLen(_, _)
+CLen(c, mut) ==
+  CASE c[1] = "flat"      -> WireLenAbs(c[3])
+    [] c[1] = "parsed"    -> WireLenAbs(c[4])
+    [] c[1] = "chain"     -> RelLen(c[2]) + CLen(c[3], mut)
+    [] c[1] = "uchain"    -> IF c[3] /\ "M_uchain_abs_adds_origin" \notin mut THEN WireLenAbs(c[4])
+                             ELSE WireLenRel(c[4]) + CLen(c[5], mut)
+    [] c[1] = "chainroot" -> RelLen(c[2]) + 1
+    [] c[1] = "ref"       -> CLen(c[2], mut)
+
+\* what is observable of a name through any carrier: a function of the
+\* abstract name.  compose / to_name / to_vec / to_bytes / to_cow / flatten
+\* all give `compose`; compose_canonical / to_canonical_name give `canon`
+\* (= the lower-cased `compose`); hash_ok: hashes like the flat name
+NameObs(n) ==
+  [compose |-> ToWireAbs(n), canon |-> LowerSeq(ToWireAbs(n)), len |-> WireLenAbs(n),
+   labels |-> Append(n, <<>>), rrsig_labels |-> RrsigLabels(n), is_root |-> n = <<>>,
+   hash_ok |-> TRUE, issues |-> <<>>]
+CarrierObs(c, mut) ==
+  [compose |-> CWire(c, FALSE, mut), canon |-> CWire(c, TRUE, mut), len |-> CLen(c, mut),
+   labels |-> Append(Denote(c), <<>>), rrsig_labels |-> RrsigLabels(Denote(c)),
+   is_root |-> Denote(c) = <<>>, hash_ok |-> TRUE, issues |-> <<>>]
+CarrierLawM(c, mut) == CarrierObs(c, mut) = NameObs(Denote(c))
+CarrierLaw(c) == CarrierLawM(c, {})
+
+\* a pair of names, however carried
+NamePairExp(m, n) ==
+  [eq |-> NameEq(m, n), cmp |-> CanonNameCmp(m, n),
+   composed |-> NameComposedCmp(m, n), lcomposed |-> NameLowerComposedCmp(m, n),
+   hash_ok |-> TRUE, issues |-> <<>>]
+
+\* record data whose domain names are held by carriers cs (one per name, in
+\* layout order): composed field by field, a name through its carrier
+HasName(f, v) == f.kind = "Name" \/ (f.kind = "IpsecGw" /\ v.gt = 3)
+NameOfField(f, v) == IF f.kind = "Name" THEN v ELSE v.gw
+NameIdx(x, val) == {i \in 1..Len(val) : HasName(LayoutOf(x)[i], val[i])}
+NamesOfRd(x, val) == LET ix == SortSet(NameIdx(x, val))
+                     IN [j \in 1..Len(ix) |-> NameOfField(LayoutOf(x)[ix[j]], val[ix[j]])]
+\* cs carries exactly the names of val
+Carries(x, val, cs) ==
+  LET ns == NamesOfRd(x, val)
+  IN Len(cs) = Len(ns) /\ \A j \in 1..Len(ns) : WfAbs(cs[j]) /\ Denote(cs[j]) = ns[j]
+RdWireC(x, val, cs, canon, mut) ==
+  LET lay == LayoutOf(x)
+      ix == SortSet(NameIdx(x, val))
+      pos(i) == Cardinality({j \in NameIdx(x, val) : j <= i})       \* which carrier
+  IN Concat([i \in 1..Len(lay) |->
+       IF lay[i].kind = "Name" THEN CWire(cs[pos(i)], canon /\ lay[i].lower, mut)
+       ELSE IF HasName(lay[i], val[i]) THEN <<val[i].gt, val[i].alg>> \o CWire(cs[pos(i)], FALSE, mut)
+       ELSE ComposeField(lay[i], val[i])])
+CarriedRdLawM(x, val, cs, mut) ==
+  /\ RdWireC(x, val, cs, FALSE, mut) = ComposeRd(x, val)
+  /\ RdWireC(x, val, cs, TRUE, mut) = CanonRd(x, val)
+
+\* a record in canonical form (RFC 4034 6.2): owner lower-cased, type, class,
+\* TTL, RDLENGTH, canonical RDATA; and its plain uncompressed form
+RecWire(r, canon) ==
+  LET rd == IF canon THEN CanonRd(r.t, r.val) ELSE ComposeRd(r.t, r.val)
+  IN ToWireAbs(IF canon THEN LowerName(r.owner) ELSE r.owner) \o EncU16(r.code) \o EncU16(r.class)
+       \o EncU32(r.ttl) \o EncU16(Len(rd)) \o rd
+RecWireC(r, oc, cs, canon, mut) ==
+  LET rd == RdWireC(r.t, r.val, cs, canon, mut)
+  IN CWire(oc, canon, mut) \o EncU16(r.code) \o EncU16(r.class)
+       \o EncU32(r.ttl) \o EncU16(Len(rd)) \o rd
+CarriedRecLawM(r, oc, cs, mut) ==
+  /\ RecWireC(r, oc, cs, FALSE, mut) = RecWire(r, FALSE)
+  /\ RecWireC(r, oc, cs, TRUE, mut) = RecWire(r, TRUE)
+
+\* expectations for record data / a record whose names sit in carriers,
+\* compared with the same or another value held flat
+CrdExp(x, u, v) ==
+  [compose |-> ComposeRd(x, u), canon_wire |-> CanonRd(x, u), rdlen |-> RdLen(x, u),
+   eq |-> IF RdEqFree(x, u, v) THEN Free ELSE RdEq(x, u, v),
+   canon |-> CanonRdCmp(x, u, v), issues |-> <<>>]
+CrdDev(x, u, v) ==
+  LET d == RdDev(x, u, v)
+      keep == {n \in DOMAIN d : "panic" \notin DOMAIN d[n]}
+  IN [n \in keep |-> [CrdExp(x, u, v) EXCEPT !.eq = d[n].eq_all, !.canon = d[n].canon]]
+CrecExp(r, s) ==
+  [compose |-> RecWire(r, FALSE), canon_wire |-> RecWire(r, TRUE),
+   hdr_canon |-> ToWireAbs(LowerName(r.owner)) \o EncU16(r.code) \o EncU16(r.class)
+                   \o EncU32(r.ttl) \o EncU16(RdLen(r.t, r.val)),
+   eq |-> IF RecEqFree(r, s) THEN Free ELSE RecEqCore(r, s),
+   canon |-> IF RecCanonPinned(r, s) THEN RecCanonCmp(r, s) ELSE Free,
+   issues |-> <<>>]
+CrecDev(r, s) ==
+  LET d == RecDev(r, s)
+  IN [n \in DOMAIN d |-> [CrecExp(r, s) EXCEPT !.eq = d[n].eq]]
 =============================================================================
